@@ -228,9 +228,7 @@ func Replay(path string, verbose bool) int {
 		return 2
 	}
 	runtime.GOMAXPROCS(1)
-	if p.Info().Isolated {
-		startWatchdog(nil)
-	}
+	startWatchdog(nil)
 	runPrelude(p, rf)
 	v, hash, lines := RunOnce(p, script, verbose)
 	if verbose {
@@ -358,9 +356,13 @@ func startWatchdog(j *journal) {
 	go func() {
 		last := atomic.LoadUint64(&progress)
 		lastChange := time.Now()
+		parent := os.Getppid()
 		samples := []metrics.Sample{{Name: "/memory/classes/heap/objects:bytes"}}
 		for {
 			time.Sleep(50 * time.Millisecond)
+			if os.Getppid() != parent {
+				os.Exit(3) // the process that started us is gone: nobody reads our result
+			}
 			cur := atomic.LoadUint64(&progress)
 			if cur != last {
 				last, lastChange = cur, time.Now()
@@ -460,14 +462,14 @@ func Worker(a WorkerArgs) int {
 	runtime.GOMAXPROCS(1) // one P: sync.Pool and scheduling inside the library behave the same in every process
 	j := openJournal(a.Journal)
 	iso := p.Info().Isolated
-	if iso {
-		startWatchdog(j)
-	}
+	// every worker runs under the watchdog and journals each library call: a call that never
+	// returns, or that eats the machine's memory, kills the worker, and the parent confirms
+	// and reports it (a check must never hang with the code it checks)
+	startWatchdog(j)
 	res := &WorkerResult{Stats: NewStats(), Found: map[string]*Found{}}
 	c := NewCtx(res.Stats)
-	if iso && j != nil {
+	if j != nil {
 		c.Journal = func(step int, name string) {
-			atomic.AddUint64(&progress, 1)
 			j.setCall(step, name)
 		}
 	}
@@ -487,7 +489,7 @@ func Worker(a WorkerArgs) int {
 				res.Truncated = true
 				break
 			}
-			if iso && time.Since(lastCkpt) > 2*time.Second {
+			if (iso && time.Since(lastCkpt) > 2*time.Second) || time.Since(lastCkpt) > 5*time.Second {
 				res.NextIdx = idx
 				res.WallS = time.Since(t0).Seconds()
 				writeWorkerResult(a, res, hashes)
@@ -754,7 +756,22 @@ func runIsolatedHang(p Property, script interface{}, dir string, hangMS int, pre
 	}
 	var out, errb bytes.Buffer
 	cmd.Stdout, cmd.Stderr = &out, &errb
+	// the child has its own watchdog; while we wait for it we are alive
+	stop := make(chan struct{})
+	go func() {
+		t := time.NewTicker(500 * time.Millisecond)
+		defer t.Stop()
+		for {
+			select {
+			case <-stop:
+				return
+			case <-t.C:
+				atomic.AddUint64(&progress, 1)
+			}
+		}
+	}()
 	err := cmd.Run()
+	close(stop)
 	if err == nil {
 		var o oneOutcome
 		if json.Unmarshal(bytes.TrimSpace(out.Bytes()), &o) == nil {
@@ -946,6 +963,7 @@ func Check(propID, tier string) int {
 		wave = append(wave, pr)
 	}
 	fatalBudget := 40 // confirmations of process deaths per batch
+	confirmedDeaths := map[string]string{} // exit code + journal status + call -> confirmed signature
 	for len(wave) > 0 {
 		for _, pr := range wave {
 			pr.err = pr.cmd.Wait()
@@ -976,6 +994,33 @@ func Check(propID, tier string) int {
 				continue
 			}
 			script := ScriptFor(p, tier, seed, js.Run)
+			// the same kind of death inside the same call as one already confirmed: count it,
+			// do not spend another hang timeout on confirming it
+			deathKey := fmt.Sprintf("%d:%s:%s", code, js.Status, js.Call)
+			if sig, ok := confirmedDeaths[deathKey]; ok {
+				merged.Found[sig].Count++
+				merged.ViolRuns++
+				from := pr.start
+				if r, ok := mergeResult(pr.out); ok && r.NextIdx > from {
+					from = r.NextIdx
+				}
+				if !merged.Found[sig].IsKnown {
+					merged.Truncated = true // the verdict is decided; no point in dying again and again
+					continue
+				}
+				skip[w] = append(skip[w], js.Run)
+				fatalBudget--
+				if fatalBudget <= 0 {
+					merged.Truncated = true
+					continue
+				}
+				if np, err := launch(w, from, pr.gen+1); err == nil {
+					next = append(next, np)
+				} else {
+					infra = true
+				}
+				continue
+			}
 			fmt.Printf("worker %d died (exit %d) in run %d step %d call %q; confirming in a fresh process\n", w, code, js.Run, js.Step, js.Call)
 			v, fatal := runIsolated(p, script, tmp)
 			if v == nil || !strings.HasPrefix(v.Sig, "fatal:") {
@@ -1001,6 +1046,14 @@ func Check(propID, tier string) int {
 				merged.Found[v.Sig] = f
 			}
 			merged.ViolRuns++
+			confirmedDeaths[deathKey] = v.Sig
+			if !merged.Found[v.Sig].IsKnown {
+				// an unlisted fatal violation decides the verdict; keep what was checkpointed
+				// and do not restart this worker
+				mergeResult(pr.out)
+				merged.Truncated = true
+				continue
+			}
 			// keep what the dead worker had checkpointed and continue after it
 			from := pr.start
 			if r, ok := mergeResult(pr.out); ok && r.NextIdx > from {
